@@ -111,6 +111,48 @@ pub fn diff_path<T: Serialize>(expected: &T, got: &T, maps: &[&str]) -> String {
     p
 }
 
+/// Value at a dotted path produced by `json_diff_path` (best effort).
+fn at_path<'a>(v: &'a Value, path: &str) -> Option<&'a Value> {
+    let mut cur = v;
+    for part in path.split('.').filter(|p| !p.is_empty()) {
+        let (name, _idx) = match part.find('[') {
+            Some(i) => (&part[.. i], true),
+            None => (part, false),
+        };
+        if name == "{keys}" || name == "len" {
+            return Some(cur);
+        }
+        cur = cur.get(name)?;
+    }
+    Some(cur)
+}
+
+/// Compact description of how two values differ at `path`.
+pub fn diff_detail<T: Serialize>(expected: &T, got: &T, path: &str) -> Value {
+    let a = serde_json::to_value(expected).unwrap_or(Value::Null);
+    let b = serde_json::to_value(got).unwrap_or(Value::Null);
+    let (ea, eb) = (at_path(&a, path), at_path(&b, path));
+    match (ea, eb) {
+        (Some(Value::Object(x)), Some(Value::Object(y))) if x.len() > 8 || y.len() > 8 => {
+            let missing: Vec<&String> = x.keys().filter(|k| !y.contains_key(*k)).take(5).collect();
+            let extra: Vec<&String> = y.keys().filter(|k| !x.contains_key(*k)).take(5).collect();
+            let changed: Vec<Value> = x
+                .iter()
+                .filter(|(k, v)| y.get(*k).map(|w| w != *v).unwrap_or(false))
+                .take(5)
+                .map(|(k, v)| json!({"key": k, "expected": v, "observed": y.get(k)}))
+                .collect();
+            json!({"expected_len": x.len(), "observed_len": y.len(), "missing_keys": missing, "extra_keys": extra, "changed": changed})
+        }
+        (Some(Value::Array(x)), Some(Value::Array(y))) if x.len() > 4 || y.len() > 4 => {
+            let first = x.iter().zip(y.iter()).position(|(u, v)| u != v);
+            json!({"expected_len": x.len(), "observed_len": y.len(), "first_differing_index": first,
+                   "expected_item": first.and_then(|i| x.get(i)), "observed_item": first.and_then(|i| y.get(i))})
+        }
+        (x, y) => json!({"expected": x.map(brief), "observed": y.map(brief)}),
+    }
+}
+
 pub fn brief<T: Serialize>(v: &T) -> Value {
     let val = serde_json::to_value(v).unwrap_or(Value::Null);
     let s = val.to_string();
@@ -141,7 +183,8 @@ pub fn expect_equal<T: PartialEq + Serialize>(
                 let path = diff_path(expected, got, maps);
                 Some(Failure {
                     signature: format!("{id}|{entry}|mismatch|{path}"),
-                    detail: json!({"expected": brief(expected), "observed": brief(got), "first_difference": path,
+                    detail: json!({"first_difference": path, "difference": diff_detail(expected, got, &path),
+                                   "expected": brief(expected), "observed": brief(got),
                                    "wire": render_log(&run.log[.. run.log.len().min(40)])}),
                 })
             }
